@@ -4,6 +4,7 @@
 //! real library and writes what the monitors observed as JSON.
 
 mod props;
+mod refhmc;
 mod refstats;
 mod rngcraft;
 mod targets;
